@@ -42,6 +42,7 @@ class FnSpec:
         self.used = False
         self.srcline = 0
         self.opaque_body = None   # replace body entirely (only for trusted fns)
+        self.overflow_tags = None
 
 
 class ModSpec:
@@ -59,6 +60,39 @@ class ModSpec:
 
 
 TAG_RE = re.compile(r'^\[([A-Z0-9 ,]+)\]\s*')
+
+
+def expand_templates(lines, path):
+    templates = {}
+    out = []
+    cur = None
+    for ln in lines:
+        m = re.match(r'@template\s+(\S+)\s*(.*)$', ln)
+        if m:
+            cur = (m.group(1), m.group(2).split(), [])
+            continue
+        if ln.strip() == '@endtemplate':
+            templates[cur[0]] = cur
+            cur = None
+            continue
+        if cur is not None:
+            cur[2].append(ln)
+            continue
+        m = re.match(r'@apply\s+(\S+)\s*(.*)$', ln)
+        if m:
+            if m.group(1) not in templates:
+                raise SpliceError('%s: unknown template %s' % (path, m.group(1)))
+            _, params, body = templates[m.group(1)]
+            args = m.group(2).split()
+            if len(args) != len(params):
+                raise SpliceError('%s: @apply %s arity' % (path, m.group(1)))
+            for b in body:
+                for pn, av in zip(params, args):
+                    b = b.replace('$' + pn, av)
+                out.append(b)
+            continue
+        out.append(ln)
+    return out
 
 
 def parse_vspec(path, name):
@@ -107,6 +141,8 @@ def parse_vspec(path, name):
             cur_fn.attrs.append(arg)
         elif d == 'tags':
             cur_fn.tags = arg.split()
+        elif d == 'overflow':
+            cur_fn.overflow_tags = arg.split()
         elif d == 'top':
             cur_fn.top.append(arg)
         elif d == 'trusted':
@@ -145,17 +181,17 @@ def parse_vspec(path, name):
         elif d == 'structural':
             ms.structural.update(arg.split())
         elif d == 'rewrite':
-            rm = re.match(r'(\S+)\s+`([^`]*)`\s*=>\s*`([^`]*)`\s*(.*)$', arg, re.S)
+            rm = re.match(r'`([^`]*)`\s*=>\s*`([^`]*)`\s*(.*)$', arg, re.S)
             if not rm:
                 raise SpliceError('%s:%d bad @rewrite' % (path, dline))
-            ms.rewrites.append((rm.group(1), rm.group(2), rm.group(3), rm.group(4)))
+            ms.rewrites.append((cur_fn.key if cur_fn else '*', rm.group(1), rm.group(2), rm.group(3)))
         elif d == 'use':
             ms.uses.append(arg)
         else:
             raise SpliceError('%s:%d unknown directive @%s' % (path, dline, d))
         directive, buf = None, []
 
-    for line in open(path):
+    for line in expand_templates(open(path).read().split('\n'), path):
         lineno += 1
         line = line.rstrip('\n')
         if line.startswith('#') and not line.startswith('#['):
@@ -194,6 +230,17 @@ class Out:
     def count(self, rule, n=1):
         if n:
             self.counts[rule] = self.counts.get(rule, 0) + n
+
+
+class Deferred:
+    def __init__(self):
+        self.calls = []
+
+    def emit(self, *a, **kw):
+        self.calls.append((a, kw))
+
+    def count(self, *a, **kw):
+        pass
 
 
 DROP_DERIVES = {'IntoBytes', 'Immutable', 'FromBytes', 'KnownLayout', 'Debug', 'Unaligned', 'TryFromBytes'}
@@ -285,7 +332,7 @@ def find_matching_paren(mask, i):
 
 def rewrite_macros_panics(body, refuse_expr, out):
     """D6: assert!/assert_eq!/assert_ne!/panic!/unreachable!/debug_assert! -> refuse()."""
-    g = 'Ghost(%s)' % (refuse_expr if refuse_expr else 'false')
+    blk = '{ let ghost __refuse_ok: bool = (%s); crate::vp::refuse(Ghost(__refuse_ok)) }' % (refuse_expr if refuse_expr else 'false')
     res = []
     i = 0
     mask = code_mask(body)
@@ -305,16 +352,16 @@ def rewrite_macros_panics(body, refuse_expr, out):
             rep = '()'
             out.count('D6 debug_assert dropped')
         elif name == 'assert':
-            cond = split_top(args)[0]
-            rep = 'if !(%s) { crate::vp::refuse(%s) }' % (cond.strip(), g)
+            cond = split_top(args, angle=False)[0]
+            rep = 'if !(%s) %s' % (cond.strip(), blk)
             out.count('D6 assert! -> refuse')
         elif name in ('assert_eq', 'assert_ne'):
-            parts = split_top(args)
+            parts = split_top(args, angle=False)
             opx = '==' if name == 'assert_eq' else '!='
-            rep = 'if !((%s) %s (%s)) { crate::vp::refuse(%s) }' % (parts[0].strip(), opx, parts[1].strip(), g)
+            rep = 'if !((%s) %s (%s)) %s' % (parts[0].strip(), opx, parts[1].strip(), blk)
             out.count('D6 %s! -> refuse' % name)
         else:
-            rep = 'crate::vp::refuse(%s)' % g
+            rep = blk
             out.count('D6 %s! -> refuse' % name)
         res.append(rep)
         i = cl + 1
@@ -544,6 +591,7 @@ class Splicer:
         out.emit('use vstd::prelude::*;')
         out.emit('extern crate alloc;')
         out.emit('verus! {')
+        out.emit('global size_of usize == 8;   // verified configuration: 64-bit target (DESIGN.md section 8)')
         out.emit('pub mod vp {')
         out.emit(prelude)
         out.emit('} // mod vp')
@@ -572,9 +620,24 @@ class Splicer:
             out.emit('use super::*;') if False else None
         for u in ms.uses:
             out.emit(u)
+        # D20: enums are hoisted to the top of the module (a Verus defect zeroes explicit
+        # discriminants of an enum that follows a spec fn in the same module); item order has
+        # no run-time content
+        enums = [it for it in items if it.kind == 'enum' and not is_cfg_test(it.attrs)]
+        rest = [it for it in items if not (it.kind == 'enum' and not is_cfg_test(it.attrs))]
+        uses = [it for it in rest if it.kind == 'use']
+        rest = [it for it in rest if it.kind != 'use']
+        self.emit_items(mod, ms, uses, None)
+        self.emit_items(mod, ms, enums, None)
+        out.count('D20 enum hoisted to module top', len(enums))
+        d = getattr(self, '_deferred_out', None)
+        if d:
+            for (a, kw) in d.calls:
+                out.emit(*a, **kw)
+            self._deferred_out = None
         for t in ms.module_text:
             out.emit(t, fn='%s::<module text>' % mod, kind='module')
-        self.emit_items(mod, ms, items, None)
+        self.emit_items(mod, ms, rest, None)
         for k, fs in ms.fns.items():
             if not fs.used:
                 raise SpliceError('lost anchor: contract for `%s` in %s.vspec matches no function in /repo/src/%s.rs' % (k, mod, mod))
@@ -656,6 +719,9 @@ class Splicer:
             elif it.kind in ('struct', 'enum', 'union'):
                 a2, had_ib, had_default = rewrite_attrs(attrs, out, it.name, ms)
                 out.emit('\n'.join(a2 + [publicise_struct(it.text[it.decl_off - it.start:], it.kind, out)]))
+                _real_out = out
+                if it.kind == 'enum':
+                    out = self._deferred_out = getattr(self, '_deferred_out', None) or Deferred()
                 if had_ib:
                     raw = ms.raw.get(it.name)
                     if raw is None:
@@ -667,6 +733,7 @@ class Splicer:
                 if had_default:
                     out.emit('impl Default for %s {\n    #[verifier::external_body] fn default() -> (r: Self)\n        ensures %s\n    { unimplemented!() }\n}' % (it.name, ms.defaults[it.name]),
                              fn='%s::%s::default' % (mod, it.name), kind='seam')
+                out = _real_out
             elif it.kind in ('impl', 'trait'):
                 key = it.name if it.kind == 'impl' else it.name
                 self._impls_seen.setdefault(mod, set()).add(key)
@@ -679,7 +746,7 @@ class Splicer:
                 for t in ms.impl_items.get(key, []):
                     out.emit(t, fn='%s::%s::<spec items>' % (mod, key), kind='spec')
                 if it.kind == 'impl' and key.startswith('AmlSink for ') and not any('fn after' in t for t in ms.impl_items.get(key, [])):
-                    out.emit('    uninterp spec fn after(&self, k: Seq<u8>) -> Seq<u8>;')
+                    out.emit('    uninterp spec fn after(&self, k: Seq<u8>) -> Seq<u8>;\n    uninterp spec fn frame(&self) -> int;')
                     self.uncovered.append('%s::%s (no after() specification)' % (mod, key))
                 if it.kind == 'impl' and key.startswith('Aml for ') and not any('fn bytes' in t for t in ms.impl_items.get(key, [])):
                     out.emit('    uninterp spec fn bytes(&self) -> Seq<u8>;')
@@ -725,9 +792,14 @@ class Splicer:
         if sig.where:
             header += ' ' + sig.where
         covered = spec is not None
+        if spec and re.search(r'\bsink\s*:\s*&mut\s+dyn\s+AmlSink', params):
+            for ls in spec.loops.values():
+                if not any('sink.frame()' in t for (_, t) in ls['invariant']):
+                    ls['invariant'].append(([], 'sink.frame() == old(sink).frame()'))
         tags_all = sorted(set(t for (tg, _) in (spec.ensures + spec.requires if spec else []) for t in tg) | set(spec.tags or [] if spec else []))
         rec = dict(module=mod, key=key, fq=fq, covered=covered, trusted=bool(spec and spec.trusted),
                    tags=tags_all, body_tags=(spec.tags if spec and spec.tags is not None else tags_all),
+                   overflow_tags=(spec.overflow_tags if spec else None),
                    src_line=it.line, has_body=it.body is not None)
         self.fn_index.append(rec)
         if it.body is None:
